@@ -1236,6 +1236,8 @@ class Stack(list):
             return False
         if sequence == 0xffffffff:
             return False
+        if len(self[-1]) > 5:
+            return False
         locktime = decode_num(self[-1])
         if locktime < 0:
             return False
@@ -1259,6 +1261,8 @@ class Stack(list):
 
         :return bool:
         """
+        if len(self[-1]) > 5:
+            return False
         locktime = decode_num(self[-1])
         if locktime < 0:
             return False
